@@ -50,6 +50,22 @@
 (* the harness allows the documented tolerance term on top of it for the   *)
 (* default tolerances) and TAU = 1/4 exactly ("q16": values in units of    *)
 (* 1/16; the harness passes locals tol=0.25, rel=0 so floats are exact).   *)
+(* A third reading, "r16", is the OTHER legal way of giving the tolerance: *)
+(* locals tol=0 (a legal value that is falsy in Python), rel=0.25, i.e.    *)
+(* TAU(rhs) = |rhs|/4 (again units of 1/16, floats exact).  With tol = 0   *)
+(* the tolerance vanishes where rhs = 0 and exceeds the lattice spacing    *)
+(* where |rhs| >= 4, so this reading is defined only at points where every *)
+(* strict line has 0 < |rhs| < 4 (R16Defined).                             *)
+(* Units.  The integers of the spec are multiples of an arbitrary unit u:  *)
+(* for degree-one relations nothing but the unit changes when constants    *)
+(* and coordinates are multiplied by S (ScaleLemma), so the harness may    *)
+(* also use u = 2^-30, 2^-1000 (tiny but not zero) and, for relations      *)
+(* without arithmetic (right-hand side a constant or +-one variable), any  *)
+(* positive float (0.1, 1e-10, 1e10, 1e300).  The multiplier k of a        *)
+(* penalty is a factor of the whole sum by definition: k = 0 (falsy, the   *)
+(* penalty vanishes: KZero), fractional and huge k are k-units of the k    *)
+(* TLC enumerates.  Boxes: Clip commutes with every positive scale         *)
+(* (BoxScaleLemma; the unbounded sides stay unbounded).                    *)
 (* Huge magnitudes: ScaleLemma states that relations of degree one         *)
 (* (kinds "aff", "abs") with c0 scaled by S hold at S*x iff the original   *)
 (* holds at x, and that condition values / penalties scale by S / S^deg;   *)
@@ -180,14 +196,31 @@ Term(fam, c, f, u) ==
 
 TermLim(fam, c) == Term(fam, c, c.v, 1)                 \* TAU -> 0+, units 1
 TermQ16(fam, c) == Term(fam, c, 4 * c.v + c.e, 4)       \* TAU = 1/4, units 1/16
+TermR16(fam, c, r) == Term(fam, c, 4 * c.v + c.e * Abs(r), 4)   \* TAU = |rhs|/4 (tol = 0, rel = 1/4), units 1/16
 
 RECURSIVE SumTo(_, _)
 SumTo(f, n) == IF n = 0 THEN 0 ELSE f[n] + SumTo(f, n - 1)
 
-(* penalty of a system s (sequence of relation records) at point p:        *)
-(* multiplier times the sum of the per-line terms                          *)
-PenLim(fam, k, s, p) == k * SumTo([l \in 1..Len(s) |-> TermLim(fam, CondOf(s[l], p))], Len(s))
-PenQ16(fam, k, s, p) == k * SumTo([l \in 1..Len(s) |-> TermQ16(fam, CondOf(s[l], p))], Len(s))
+(* the conditions of a system s (sequence of relation records) at point p, *)
+(* each with its right-hand value: computed once per state                 *)
+Conds(s, p) == [l \in 1..Len(s) |-> [c |-> CondOf(s[l], p), r |-> Rhs(s[l], p)]]
+
+(* the sum of the per-line terms for multiplier 1, from the conditions cs  *)
+UnitLim(fam, cs) == SumTo([l \in 1..Len(cs) |-> TermLim(fam, cs[l].c)], Len(cs))
+UnitQ16(fam, cs) == SumTo([l \in 1..Len(cs) |-> TermQ16(fam, cs[l].c)], Len(cs))
+UnitR16(fam, cs) == SumTo([l \in 1..Len(cs) |-> TermR16(fam, cs[l].c, cs[l].r)], Len(cs))
+
+(* penalty of the system at the point: the multiplier k times that sum --  *)
+(* k is a factor of the whole sum BY DEFINITION (the documented formula    *)
+(* pk*f(x)**2 etc. per line, summed), so Pen(k) = k * Pen(1): k = 0 gives  *)
+(* 0, and fractional / huge k are k-units of the k TLC enumerates          *)
+PenLim(fam, k, s, p) == k * UnitLim(fam, Conds(s, p))
+PenQ16(fam, k, s, p) == k * UnitQ16(fam, Conds(s, p))
+PenR16(fam, k, s, p) == k * UnitR16(fam, Conds(s, p))
+(* the reading tol = 0, rel = 1/4 is defined where the tolerance |rhs|/4 of *)
+(* every strict line is positive and smaller than the lattice spacing 1     *)
+R16DefinedC(cs) == \A l \in 1..Len(cs) : cs[l].c.e = 1 => (cs[l].r # 0 /\ Abs(cs[l].r) < 4)
+R16Defined(s, p) == R16DefinedC(Conds(s, p))
 
 SysRecs == [k \in Lines |-> Rel(k)]
 
@@ -262,17 +295,31 @@ Orientation == \A k \in Lines : CondSat(CondOf(Rel(k), x)) <=> Holds(Rel(k), x)
 
 AllHold(p) == \A k \in Lines : Holds(Rel(k), p)
 
+(* "zero exactly at points satisfying every line, positive elsewhere" is a  *)
+(* statement about multipliers k > 0 (a sum of terms >= 0 times k); k = 0   *)
+(* switches the penalty off (KZero)                                        *)
 PenaltyZeroSet ==
-  \A f \in 1..Len(FamSeq) : \A k \in Ks :
-     /\ PenLim(FamSeq[f], k, SysRecs, x) >= 0
-     /\ PenQ16(FamSeq[f], k, SysRecs, x) >= 0
-     /\ (PenQ16(FamSeq[f], k, SysRecs, x) = 0 <=> AllHold(x))
-     /\ (AllHold(x) => PenLim(FamSeq[f], k, SysRecs, x) = 0)
+  \A cs \in {Conds(SysRecs, x)} : \A ah \in {AllHold(x)} : \A rd \in {R16DefinedC(cs)} :
+      \A f \in 1..Len(FamSeq) :
+        \A ul \in {UnitLim(FamSeq[f], cs)} : \A uq \in {UnitQ16(FamSeq[f], cs)} : \A ur \in {UnitR16(FamSeq[f], cs)} :
+            /\ ul >= 0 /\ uq >= 0 /\ ur >= 0
+            /\ (uq = 0 <=> ah)
+            /\ (rd => (ur = 0 <=> ah))
+            /\ (ah => ul = 0)
+            /\ \A k \in Ks : /\ k >= 0
+                              /\ (k > 0 => ((k * uq = 0 <=> ah) /\ (rd => (k * ur = 0 <=> ah))))
+
+(* k = 0 (a legal multiplier that is falsy in Python): the penalty vanishes everywhere *)
+KZero ==
+  \A f \in 1..Len(FamSeq) :
+     /\ PenLim(FamSeq[f], 0, SysRecs, x) = 0
+     /\ PenQ16(FamSeq[f], 0, SysRecs, x) = 0
+     /\ PenR16(FamSeq[f], 0, SysRecs, x) = 0
 
 (* penalty(constraint(x)) = 0 for independent isolated systems *)
 CrossZero ==
   (bx = 0 /\ pc = Len(sys) /\ IsolatedSys /\ Independent) =>
-     \A f \in 1..Len(FamSeq) : \A k \in Ks : PenQ16(FamSeq[f], k, SysRecs, x) = 0
+     \A cs \in {Conds(SysRecs, x)} : \A f \in 1..Len(FamSeq) : \A k \in Ks : k * UnitQ16(FamSeq[f], cs) = 0
 
 (* huge magnitudes: degree-one relations are scale invariant *)
 Degree1(rel) == rel.kind \in {"aff", "abs"}
@@ -296,6 +343,19 @@ ScaleLemma ==
 (* bounds *)
 BoxIn == bx # 0 => InBox(x, BoxSeq[bx])
 BoxIdempotent == bx # 0 => Clip(x, BoxSeq[bx]) = x
+(* magnitudes of boxes: clipping commutes with every positive scale (the    *)
+(* sentinels of the unbounded sides are not scaled); with TLC's Scales here, *)
+(* with 2^40, 1e10, 1e300, 0.1, 0.5, 1e-10, 1e-300, 5e-324 in the harness   *)
+(* (multiplication by a positive float is monotone, so Clip needs no        *)
+(* arithmetic beyond the comparisons the lemma is about)                    *)
+ScaleBound(v, S) == IF v = NINF \/ v = PINF THEN v ELSE S * v
+ScaleBox(b, S) == [lo |-> [j \in 1..N |-> ScaleBound(b.lo[j], S)], hi |-> [j \in 1..N |-> ScaleBound(b.hi[j], S)]]
+BoxScaleLemma ==
+  bx = 0 =>
+  \A b \in 1..Len(BoxSeq) : \A S \in Scales :
+     /\ Clip(ScalePt(x, S), ScaleBox(BoxSeq[b], S)) = ScalePt(Clip(x, BoxSeq[b]), S)
+     /\ (InBox(ScalePt(x, S), ScaleBox(BoxSeq[b], S)) <=> InBox(x, BoxSeq[b]))
+
 BoxStep == [][\A b \in 1..Len(BoxSeq) : Bound(b) =>
                  /\ (InBox(x, BoxSeq[b]) => x' = x)
                  /\ \A j \in 1..N :
@@ -325,18 +385,23 @@ EmitC13 ==
 
 (* C14: per line the condition (q, v, e), its right-hand value r (the      *)
 (* argument of the tolerance term) and whether it is satisfied; per family *)
-(* and multiplier (order: FamSeq major, KSeq minor) the penalty in the two *)
-(* readings; ind = C13's premise holds, so penalty(constraint(x)) = 0      *)
+(* and multiplier (order: FamSeq major, KSeq minor) the penalty in the     *)
+(* three readings <<lim, q16, r16>>; rok = the reading tol = 0 is defined  *)
+(* at x0; ind = C13's premise holds, so penalty(constraint(x)) = 0         *)
 EmitC14 ==
   (pc = 0 /\ bx = 0 /\ Len(sys) > 0) =>
+    \* cs, u bound by quantifiers over singletons: TLC evaluates a bound value once, a LET definition at every use;
+    \* p[fk] = k * (unit sums) = <<PenLim, PenQ16, PenR16>>(FamSeq[f], k, SysRecs, x0) by the definition of Pen*
+    \A cs \in {Conds(SysRecs, x0)} :
+    \A u \in {[f \in 1..Len(FamSeq) |-> <<UnitLim(FamSeq[f], cs), UnitQ16(FamSeq[f], cs), UnitR16(FamSeq[f], cs)>>]} :
     PrintT(<<"@@", ToJson([s   |-> sys, x |-> x0,
-                           c   |-> [k \in Lines |-> LET c == CondOf(Rel(k), x0)
-                                                    IN <<IF c.q THEN 1 ELSE 0, c.v, c.e, Rhs(Rel(k), x0)>>],
-                           sat |-> [k \in Lines |-> CondSat(CondOf(Rel(k), x0))],
+                           c   |-> [k \in Lines |-> <<IF cs[k].c.q THEN 1 ELSE 0, cs[k].c.v, cs[k].c.e, cs[k].r>>],
+                           sat |-> [k \in Lines |-> CondSat(cs[k].c)],
                            p   |-> [fk \in 1..(Len(FamSeq) * Len(KSeq)) |->
-                                      LET f == FamSeq[((fk - 1) \div Len(KSeq)) + 1]
+                                      LET f == ((fk - 1) \div Len(KSeq)) + 1
                                           k == KSeq[((fk - 1) % Len(KSeq)) + 1]
-                                      IN <<PenLim(f, k, SysRecs, x0), PenQ16(f, k, SysRecs, x0)>>],
+                                      IN <<k * u[f][1], k * u[f][2], k * u[f][3]>>],
+                           rok |-> R16DefinedC(cs),
                            ind |-> IsolatedSys /\ Independent])>>)
 
 (* bounds: for the input x0 the clipped vector for every box of the run *)
